@@ -121,6 +121,52 @@ def run(ctx):
             oksl = True
     ctx.ob('ACK-IMPLIES-STORED', 'store_local_in_core', oksl, sl.where(), 'store_local_in_core hands (key, value) to DhtCoreEngine::store and propagates its error: %s' % oksl)
 
+    # ---- 2b. an outcome is attributed to the peer it came from
+    # PutSuccess.peer_outcomes names the replicas that acknowledged. The (peer, outcome) pair must be built inside the
+    # future that awaits the request to that very peer; pairing replies with targets by position is only sound when the
+    # combinator keeps launch order (join_all), never after an unordered drain.
+    paired = 0
+    mism = []
+    for i in prog.family(MGR + '::put'):
+        fb = prog.bodies[i]
+        if not any(c.callee.endswith('::send_dht_request') for c in fb.calls()):
+            continue
+        for bi, si, st in fb.stmts():
+            r = st['r']
+            if r['k'] != 'agg' or len(r.get('ops', [])) != 2 or r.get('adt'):
+                continue
+            e0, e1 = fb.expr(r['ops'][0]), fb.expr(r['ops'][1])
+            sd = e1.mentions_call(r'::send_dht_request$')
+            if sd is None or len(sd.b) < 2:
+                continue
+            who = sd.b[1].strip()
+            tag = e0.strip()
+            while tag.k == 'call' and tag.b and re.search(r'Clone>::clone$|::clone$|ToString>::to_string$|ToOwned>::to_owned$', tag.a):
+                tag = tag.b[0].strip()
+            if tag.show() == who.show():
+                paired += 1
+            else:
+                mism.append((fb, st, tag, who))
+    unordered = None
+    zipped = None
+    for i in prog.family(MGR + '::put'):
+        fb = prog.bodies[i]
+        for c in fb.calls(r'FuturesUnordered|buffer_unordered|select_all|select_ok|FuturesOrdered'):
+            if 'FuturesOrdered' not in c.callee:
+                unordered = c
+        for c in fb.calls(r'Iterator::zip$|Iterator>::zip$|iter::zip$'):
+            zipped = c
+    ordered = any(fb2.calls(r'future::join_all$|join_all$|FuturesOrdered|try_join_all$') for fb2 in (prog.bodies[i] for i in prog.family(MGR + '::put')))
+    okattr = not mism and not (unordered is not None and zipped is not None) and (paired >= 1 or (zipped is not None and ordered and unordered is None))
+    ctx.ob('ATTRIBUTION', 'put:outcome-paired-with-its-peer', okattr, (mism[0][0].where(mism[0][1].get('ln')) if mism else (unordered.where() if unordered is not None and zipped is not None else pb.where())),
+           ('each (peer, outcome) pair is built in the future that awaits the request to that peer (%d site)' % paired) if okattr else
+           ('a reply is paired with %s but was awaited from %s' % (mism[0][2].brief(40), mism[0][3].brief(40)) if mism else
+            ('replies drained in completion order (%s) are zipped back onto the target list: an acknowledgement is attributed to whichever peer '
+             'sits at that position — a replica that never stored is reported as successful' % unordered.short()) if (unordered is not None and zipped is not None) else
+            'no (peer, outcome) pair built next to the awaited send_dht_request was found: attribution of acknowledgements cannot be established'),
+           entry=MGR + '::put')
+    ctx.floor('ATTRIBUTION', 1)
+
     # ---- 3. the node never targets itself
     targets_ok = False
     detail = 'replication iterator not found'
